@@ -231,18 +231,68 @@ Proof.
     + intros H; inversion H; subst. split; [exact G1'|exact I].
 Qed.
 
+(* per-field settings *)
+Lemma mixed_pass1_ok isc rf otype value opath :
+  rf_err_ok rf -> forall sub, ok_at opath true (mixed_pass1 isc (fun k ns => rf otype value opath k ns) sub).
+Proof.
+  intros Hrf. induction sub as [|[k ns] rest IH]; intros s r s'; cbn [mixed_pass1].
+  - intros H; inversion H; subst. split; [apply grows_refl|exact I].
+  - destruct (isc k ns).
+    + destruct (mixed_pass1 isc _ rest s) as [[slots|l|e] s1] eqn:E2; destruct (IH _ _ _ E2) as [G2 R2];
+        intros H; inversion H; subst; split; try exact G2; try exact I; exact R2.
+    + destruct (rf otype value opath k ns s) as [r1 s1] eqn:E1.
+      destruct (Hrf _ _ _ _ _ _ _ _ E1) as [G1 R1].
+      assert (G1' : grows_below opath s s1) by (eapply grows_weaken; [apply extends_app|exact G1]).
+      destruct r1 as [o|l|e].
+      * destruct (mixed_pass1 isc _ rest s1) as [[slots|l'|e'] s2] eqn:E2; destruct (IH _ _ _ E2) as [G2 R2];
+          intros H; inversion H; subst; (split; [eapply grows_trans; eauto|]); try exact I; exact R2.
+      * intros H; inversion H; subst. split; [exact G1'|].
+        destruct R1 as [Hne Hl]. split; [exact Hne|eapply weaken_located; eauto].
+      * intros H; inversion H; subst. split; [exact G1'|exact I].
+Qed.
+
+Lemma mixed_pass2_ok rf otype value opath :
+  rf_err_ok rf -> forall sub slots, ok_at opath true (mixed_pass2 (fun k ns => rf otype value opath k ns) sub slots).
+Proof.
+  intros Hrf. induction sub as [|[k ns] rest IH]; intros slots s r s'; cbn [mixed_pass2].
+  - intros H; inversion H; subst. split; [apply grows_refl|exact I].
+  - destruct slots as [|[o|] srest].
+    + intros H; inversion H; subst. split; [apply grows_refl|exact I].
+    + destruct (mixed_pass2 _ rest srest s) as [rs s2] eqn:E2. destruct (IH _ _ _ _ E2) as [G2 R2].
+      destruct rs as [kv|l'|e']; intros H; inversion H; subst; split; try exact G2; try exact I; exact R2.
+    + destruct (rf otype value opath k ns s) as [r1 s1] eqn:E1.
+      destruct (mixed_pass2 _ rest srest s1) as [rs s2] eqn:E2.
+      destruct (Hrf _ _ _ _ _ _ _ _ E1) as [G1 R1]. destruct (IH _ _ _ _ E2) as [G2 R2].
+      assert (G : grows_below opath s s2).
+      { eapply grows_trans; [|exact G2]. eapply grows_weaken; [apply extends_app|exact G1]. }
+      destruct r1 as [[v|]|l|e]; destruct rs as [kv|l'|e']; intros H; inversion H; subst;
+        (split; [exact G|]); try exact I; try exact R2.
+      * destruct R1 as [Hne Hl]. split; [exact Hne|eapply weaken_located; eauto].
+      * destruct R1 as [Hne Hl]. destruct R2 as [Hne' Hl']. split.
+        -- destruct l; [congruence|discriminate].
+        -- apply Forall_app. split; [eapply weaken_located; eauto|exact Hl'].
+Qed.
+
+Lemma exec_fields_mixed_ok isc rf otype value opath :
+  rf_err_ok rf -> forall sub, ok_at opath true (exec_fields_mixed isc (fun k ns => rf otype value opath k ns) sub).
+Proof.
+  intros Hrf sub s r s'. unfold exec_fields_mixed.
+  destruct (mixed_pass1 isc _ sub s) as [[slots|l|e] s1] eqn:E1;
+    destruct (mixed_pass1_ok isc rf otype value opath Hrf sub _ _ _ E1) as [G1 R1].
+  - intros H. destruct (mixed_pass2_ok rf otype value opath Hrf sub slots _ _ _ H) as [G2 R2].
+    split; [eapply grows_trans; eauto|exact R2].
+  - intros H; inversion H; subst. split; [exact G1|exact R1].
+  - intros H; inversion H; subst. split; [exact G1|exact I].
+Qed.
+
 Lemma exec_sub_ok rf nodes otype value opath :
   rf_err_ok rf -> ok_at opath true (exec_sub sch doc vs cfg rf nodes otype value opath).
 Proof.
   intros Hrf s r s'. unfold exec_sub.
   destruct (collect_subfields sch doc vs COLLECT_FUEL otype nodes [] []) as [sub|].
-  - destruct (parent_concurrently cfg).
-    + destruct (exec_fields_conc _ sub s) as [[kv|l|e] s1] eqn:E;
-        destruct (exec_fields_conc_ok rf otype value opath Hrf sub _ _ _ E) as [G R];
-        intros H; inversion H; subst; split; auto.
-    + destruct (exec_fields_seq _ sub s) as [[kv|l|e] s1] eqn:E;
-        destruct (exec_fields_seq_ok rf otype value opath Hrf sub _ _ _ E) as [G R];
-        intros H; inversion H; subst; split; auto.
+  - destruct (exec_fields_mixed _ _ sub s) as [[kv|l|e] s1] eqn:E;
+      destruct (exec_fields_mixed_ok _ rf otype value opath Hrf sub _ _ _ E) as [G R];
+      intros H; inversion H; subst; split; auto.
   - intros H; inversion H; subst. split; [apply grows_refl|exact I].
 Qed.
 
@@ -485,8 +535,8 @@ Proof.
     - destruct (Hok _ _ _ E) as [_ [Hne _]].
       intros H; inversion H; subst. cbn. intros _.
       destruct l; [congruence|]. cbn. destruct (s_errors s); discriminate. }
-  destruct (o_kind op); try destruct (parent_concurrently cfg); apply Hrun;
-    first [apply exec_fields_conc_ok; exact Hrf | apply exec_fields_seq_ok; exact Hrf].
+  destruct (o_kind op); apply Hrun;
+    first [apply exec_fields_mixed_ok; exact Hrf | apply exec_fields_seq_ok; exact Hrf].
 Qed.
 
 End Errors.
